@@ -1,7 +1,9 @@
 """Per-property configuration of the checks: parts (rapid drivers), case counts, shards and wall-clock budgets."""
 
-def part(name, pkg, test, execname, quick, thorough, inproc=False, enumerate=False):
-    return dict(name=name, pkg=pkg, test=test, exec=execname, inproc=inproc, quick=quick, thorough=thorough, enumerate=enumerate)
+def part(name, pkg, test, execname, quick, thorough, inproc=False, enumerate=False, fuzz=False):
+    """fuzz=True: `test` names a native fuzz target (go test -fuzz, coverage-guided, thorough tier only); its tier entry is
+    dict(fuzztime_s=..., budget_s=...) and the executor named by execname replays what it saves."""
+    return dict(name=name, pkg=pkg, test=test, exec=execname, inproc=inproc, quick=quick, thorough=thorough, enumerate=enumerate, fuzz=fuzz)
 
 PROPS = {
     "C01": dict(
@@ -53,6 +55,8 @@ PROPS = {
             part("pure", "netprops", "TestC12Pure", "C12.pure", inproc=True,
                  quick=dict(checks=20000, shards=4, budget_s=240),
                  thorough=dict(checks=1000000, shards=16, budget_s=1800, shrink="2m")),
+            part("pure-fuzz", "netprops", "FuzzC12Pure", "C12.pure", inproc=True, fuzz=True,
+                 quick=None, thorough=dict(fuzztime_s=240, budget_s=900)),
             part("mesh", "netprops", "TestC12Mesh", "C12.mesh",
                  quick=dict(checks=96, shards=8, budget_s=300),
                  thorough=dict(checks=1600, shards=16, budget_s=3000, shrink="2m")),
@@ -76,6 +80,10 @@ PROPS = {
             part("der", "netprops", "TestC20Der", "C20.der", inproc=True,
                  quick=dict(checks=40000, shards=4, budget_s=300),
                  thorough=dict(checks=2000000, shards=16, budget_s=3000, shrink="2m")),
+            part("der-fuzz", "netprops", "FuzzC20Der", "C20.der", inproc=True, fuzz=True,
+                 quick=None, thorough=dict(fuzztime_s=240, budget_s=900)),
+            part("issue-fuzz", "netprops", "FuzzC20Issue", "C20.issue", inproc=True, fuzz=True,
+                 quick=None, thorough=dict(fuzztime_s=180, budget_s=900)),
         ],
     ),
     "C09": dict(
@@ -96,6 +104,8 @@ PROPS = {
             part("enumerate", "netprops", "TestC09Enumerate", "C09.verify", inproc=True, enumerate=True,
                  quick=None,
                  thorough=dict(checks=0, shards=8, budget_s=1800)),
+            part("verify-fuzz", "netprops", "FuzzC09Verify", "C09.verify", inproc=True, fuzz=True,
+                 quick=None, thorough=dict(fuzztime_s=180, budget_s=900)),
             part("tls", "netprops", "TestC09TLS", "C09.tls", inproc=True,
                  quick=dict(checks=600, shards=6, budget_s=300),
                  thorough=dict(checks=12000, shards=12, budget_s=1800, shrink="1m")),
